@@ -1,9 +1,11 @@
 import RjModel.Model.Basic
-/-! Model of how a symlink's text travels (`doer.rs:52-89, 714-742`, `root_relative_path.rs`) for
-unix doers: on read, `RootRelativePath::try_from(Path)` — `Path::iter` drops empty components, `.`
-components other than a leading one and trailing separators; absolute paths and components containing
-a backslash are refused — gives `Normalized(joined with '/')`, anything refused is carried verbatim
-as `NotNormalized`; on create, `Normalized` text has '/' replaced by the destination's separator. -/
+/-! Model of how a symlink's text travels (`doer.rs:52-89, 714-742`, `root_relative_path.rs`,
+`boss_doer_interface.rs::symlink_target_{to,from}_bytes`) for unix doers.  The text of a link is a
+byte string.  On read, `RootRelativePath::try_from(Path)` — `Path::iter` drops empty components,
+`.` components other than a leading one and trailing separators; absolute paths, components that are
+not UTF-8 and components containing a backslash are refused — gives `Normalized(joined with '/')`;
+anything refused is carried verbatim, byte for byte, as `NotNormalized`.  On create, `Normalized`
+text has '/' replaced by the destination's separator, `NotNormalized` bytes are written as they are. -/
 namespace Rj
 
 /-- split at '/' -/
@@ -30,15 +32,30 @@ def joinSlash : List (List Char) → List Char
   | [p] => p
   | p :: rest => p ++ '/' :: joinSlash rest
 
-/-- `entry_details_from_metadata` for a link text that is valid UTF-8 -/
-def readLink (t : List Char) : Target :=
-  if t.head? = some '/' then .notNormalized (String.ofList t)
-  else if (components t).any (fun p => p.contains '\\') then .notNormalized (String.ofList t)
-  else .normalized (String.ofList (joinSlash (components t)))
+def utf8 (t : List Char) : List UInt8 := t.utf8Encode.toList
 
-/-- `handle_create_symlink` on a doer whose separator is `sep` -/
-def writeLink (sep : Char) : Target → List Char
-  | .normalized s => s.toList.map fun c => if c = '/' then sep else c
-  | .notNormalized s => s.toList
+def decodeUtf8 (b : List UInt8) : Option (List Char) := (ByteArray.mk b.toArray).utf8Decode?.map Array.toList
+
+/-- is the (valid UTF-8) text refused by `RootRelativePath::try_from`? -/
+def refused (t : List Char) : Bool :=
+  t.head? = some '/' || (components t).any (fun p => p.contains '\\')
+
+/-- the normal form of an accepted text -/
+def normalForm (t : List Char) : List Char := joinSlash (components t)
+
+/-- `entry_details_from_metadata` on the raw bytes of a link's text -/
+def readLinkB (b : List UInt8) : Target :=
+  match decodeUtf8 b with
+  | none => .notNormalized b              -- some component is not UTF-8: refused, carried verbatim
+  | some t => if refused t then .notNormalized b else .normalized (String.ofList (normalForm t))
+
+/-- the same for a text given as characters (valid UTF-8) -/
+def readLink (t : List Char) : Target :=
+  if refused t then .notNormalized (utf8 t) else .normalized (String.ofList (normalForm t))
+
+/-- `handle_create_symlink` on a doer whose separator is `sep`: the bytes of the text that is written -/
+def writeLinkB (sep : Char) : Target → List UInt8
+  | .normalized s => utf8 (s.toList.map fun c => if c = '/' then sep else c)
+  | .notNormalized b => b
 
 end Rj
